@@ -36,4 +36,9 @@ theorem files20 : GenV20.hook_decls = ["zz_verif_hooks.go:func VerifBytes", "zz_
 /-- which function mentions which package-level table or pool (the `error` sentinels aside): nothing else in the package —
     no `Error()` method, initialiser or untranslated helper — can read or write them, whatever aliasing it might use -/
 theorem uses20 : GenV20.pkg_var_uses = ["ParseVector:order", "ParseVector:splitPool"] := by decide
+/-- the only pre-sized buffer is `Vector`'s (its capacity is pinned by `C17.cap_eq_lenVec20`; a run-time capacity anywhere else
+    would be an unmodelled panic source), the only mention of package `unsafe` is `Vector`'s string conversion, and the hooks file is
+    byte for byte the committed one -/
+theorem buffers20 : GenV20.pkg_presized = ["CVSS20.Vector"] ∧ GenV20.pkg_unsafe_all = ["CVSS20.Vector:unsafe.Pointer"] ∧
+    GenV20.hook_sha = ["zz_verif_hooks.go:a7e96d94804e9cda"] := by decide
 end StateTie
